@@ -9,6 +9,18 @@ package router
 // Broker: ownership and data-structure invariant
 
 //@ owned broker broker
+//@ immutable broker *
+//@ immutable subscription id, topic, match, created, subscribers
+//@ immutable historyStore matchPolicy, limit
+//@ immutable wamp.Session Peer, ID
+//@ immutable wamp.Publish *
+//@ immutable wamp.Subscribe *
+//@ immutable wamp.Unsubscribe *
+//@ immutable wamp.Published *
+//@ immutable wamp.Subscribed *
+//@ immutable wamp.Unsubscribed *
+//@ immutable wamp.Error *
+//@ immutable wamp.Event *
 //@ owned subscription broker
 //@ owned historyStore broker
 
@@ -24,14 +36,13 @@ package router
 //@ pred brokerPfx(b *broker) = forall t wamp.URI :: t in b.pfxTopicSubscription ==> (b.pfxTopicSubscription[t] != nil && b.pfxTopicSubscription[t].topic == t && b.pfxTopicSubscription[t].match == wamp.MatchPrefix && b.pfxTopicSubscription[t].id in b.subscriptions && b.subscriptions[b.pfxTopicSubscription[t].id] == b.pfxTopicSubscription[t])
 //@ pred brokerWc(b *broker) = forall t wamp.URI :: t in b.wcTopicSubscription ==> (b.wcTopicSubscription[t] != nil && b.wcTopicSubscription[t].topic == t && b.wcTopicSubscription[t].match == wamp.MatchWildcard && b.wcTopicSubscription[t].id in b.subscriptions && b.subscriptions[b.wcTopicSubscription[t].id] == b.wcTopicSubscription[t])
 
-//@ pred brokerSess(b *broker) = forall i wamp.ID, s *wamp.Session :: i in b.subscriptions && s in b.subscriptions[i].subscribers ==> s != nil && !isnil(s.Peer)
+//@ pred brokerSess(b *broker) = forall i wamp.ID, s *wamp.Session :: i in b.subscriptions && s in b.subscriptions[i].subscribers ==> allocated(s) && !isnil(s.Peer)
 
 //@ pred brokerInv(b *broker) = brokerNN(b) && brokerSubs(b) && brokerExact(b) && brokerPfx(b) && brokerWc(b) && brokerSess(b)
 
 //@ pred idsFresh(b *broker) = b.idGen.next < wamp.MaxID && (forall i wamp.ID :: i in b.subscriptions ==> i <= b.idGen.next)
 
 //@ func (b *broker) trySend
-//@   on broker
 //@   props C01 C07
 //@   requires b != nil && !isnil(b.log) && sess != nil && !isnil(sess.Peer) && !isnil(msg)
 //@   modifies ghost sendcount
@@ -209,3 +220,146 @@ package router
 //@   ensures [disclosure] "publisher" in result.Details ==> disclose && subscriber != nil && hasFeature(subscriber, "subscriber", "publisher_identification")
 //@   ensures [disclosed] disclose && subscriber != nil && hasFeature(subscriber, "subscriber", "publisher_identification") ==> "publisher" in result.Details && result.Details["publisher"] == box(pub.ID)
 //@   ensures [details-carried] eventDetails != nil ==> (forall k string :: k in eventDetails && k != "topic" && k != "publisher" && k != "publisher_authid" && k != "publisher_authrole" ==> k in result.Details && result.Details[k] == eventDetails[k])
+
+//@ pred eligible(sub *subscription, pub *wamp.Session, excludePublisher bool, filter PublishFilter, s *wamp.Session) = s in sub.subscribers && !(s == pub && excludePublisher) && (isnil(filter) || allowedBy(filter, s.ID, s.Details))
+
+//@ pred chanInj() = forall s1 *wamp.Session, s2 *wamp.Session :: s1 != s2 ==> sendChan(s1) != sendChan(s2)
+
+//@ pred brokerHist(b *broker) = forall s *subscription :: s in b.eventHistoryStore ==> (s != nil && allocated(b.eventHistoryStore[s]) && b.eventHistoryStore[s].limit > 0 && dqlen(b.eventHistoryStore[s].entries) >= 0 && dqlen(b.eventHistoryStore[s].entries) <= b.eventHistoryStore[s].limit)
+
+//@ func (h *historyStore) atLimit
+//@   props C20
+//@   requires h != nil
+//@   pure
+//@   ensures [def] result <==> dqlen(h.entries) >= h.limit
+
+//@ func (b *broker) syncSaveEvent
+//@   on broker
+//@   props C20
+//@   requires eventStore != nil && event != nil && eventStore.limit > 0 && dqlen(eventStore.entries) >= 0 && dqlen(eventStore.entries) <= eventStore.limit
+//@   modifies deque(eventStore.entries)
+//@   ensures [bounded] dqlen(eventStore.entries) <= eventStore.limit && dqlen(eventStore.entries) >= 1
+//@   ensures [append] old(dqlen(eventStore.entries)) < eventStore.limit ==> dqlen(eventStore.entries) == old(dqlen(eventStore.entries)) + 1 && (forall i mathint :: 0 <= i && i < old(dqlen(eventStore.entries)) ==> dqat(eventStore.entries, i) == old(dqat(eventStore.entries, i)))
+//@   ensures [evict-oldest] old(dqlen(eventStore.entries)) >= eventStore.limit ==> dqlen(eventStore.entries) == old(dqlen(eventStore.entries)) && (forall i mathint :: 0 <= i && i + 1 < old(dqlen(eventStore.entries)) ==> dqat(eventStore.entries, i) == old(dqat(eventStore.entries, i + 1)))
+//@   ensures [newest-last] dqat(eventStore.entries, dqlen(eventStore.entries) - 1).publication == pub && dqat(eventStore.entries, dqlen(eventStore.entries) - 1).event.Publication == event.Publication && dqat(eventStore.entries, dqlen(eventStore.entries) - 1).event.Subscription == event.Subscription && dqat(eventStore.entries, dqlen(eventStore.entries) - 1).event.Arguments == event.Arguments && dqat(eventStore.entries, dqlen(eventStore.entries) - 1).event.ArgumentsKw == event.ArgumentsKw && dqat(eventStore.entries, dqlen(eventStore.entries) - 1).event.Details == event.Details
+
+//@ pred historySaved(b *broker, sub *subscription, msg *wamp.Publish) = sub in b.eventHistoryStore && !("exclude" in msg.Options) && !("eligible" in msg.Options)
+
+//@ func (b *broker) syncPubEvent
+//@   on broker
+//@   props C01 C12 C20
+//@   requires brokerInv(b) && brokerHist(b) && pub != nil && msg != nil && sub != nil && sub.id in b.subscriptions && b.subscriptions[sub.id] == sub
+//@   requires eventDetails == nil || identityKeysAbsent(eventDetails)
+//@   assume [distinct-channels] chanInj()
+//@   modifies ghost sendcount, deque(b.eventHistoryStore[sub].entries)
+//@   ensures [exactly-once] forall s *wamp.Session :: old(allocated(s)) ==> sendcount(sendChan(s)) == old(sendcount(sendChan(s))) + (eligible(sub, pub, excludePublisher, filter, s) ? 1 : 0)
+//@   ensures [history-kept] brokerHist(b)
+//@   ensures [history-saved] historySaved(b, sub, msg) ==> dqlen(b.eventHistoryStore[sub].entries) >= 1 && dqat(b.eventHistoryStore[sub].entries, dqlen(b.eventHistoryStore[sub].entries) - 1).publication == msg && dqat(b.eventHistoryStore[sub].entries, dqlen(b.eventHistoryStore[sub].entries) - 1).event.Publication == pubID && dqat(b.eventHistoryStore[sub].entries, dqlen(b.eventHistoryStore[sub].entries) - 1).event.Subscription == sub.id && dqat(b.eventHistoryStore[sub].entries, dqlen(b.eventHistoryStore[sub].entries) - 1).event.Arguments == msg.Arguments && dqat(b.eventHistoryStore[sub].entries, dqlen(b.eventHistoryStore[sub].entries) - 1).event.ArgumentsKw == msg.ArgumentsKw
+//@   ensures [history-skipped] sub in b.eventHistoryStore && !historySaved(b, sub, msg) ==> dqlen(b.eventHistoryStore[sub].entries) == old(dqlen(b.eventHistoryStore[sub].entries)) && (forall i mathint :: dqat(b.eventHistoryStore[sub].entries, i) == old(dqat(b.eventHistoryStore[sub].entries, i)))
+//@   callsite trySend : [event-to-eligible] eligible(sub, pub, excludePublisher, filter, arg1)
+//@   callsite trySend : [event-content] is(arg2, *wamp.Event) && arg2.(*wamp.Event).Subscription == sub.id && arg2.(*wamp.Event).Publication == pubID && (sendTopic ==> "topic" in arg2.(*wamp.Event).Details && arg2.(*wamp.Event).Details["topic"] == box(msg.Topic)) && len(arg2.(*wamp.Event).Arguments) == len(msg.Arguments) && (forall i mathint :: 0 <= i && i < len(msg.Arguments) ==> arg2.(*wamp.Event).Arguments[i] == msg.Arguments[i])
+//@   callsite trySend : [event-disclosure] "publisher" in arg2.(*wamp.Event).Details ==> disclose && hasFeature(arg1, "subscriber", "publisher_identification")
+//@   loop range sub.subscribers
+//@     invariant [counted] forall s *wamp.Session :: old(allocated(s)) && visited(s) ==> sendcount(sendChan(s)) == old(sendcount(sendChan(s))) + (eligible(sub, pub, excludePublisher, filter, s) ? 1 : 0)
+//@     invariant [untouched] forall s *wamp.Session :: old(allocated(s)) && !visited(s) ==> sendcount(sendChan(s)) == old(sendcount(sendChan(s)))
+//@     invariant [visited-members] forall s *wamp.Session :: visited(s) ==> s in sub.subscribers
+
+//@ pred matches(s *subscription, topic wamp.URI) = (s.match == wamp.MatchPrefix && hasPrefix(string(topic), string(s.topic))) || (s.match == wamp.MatchWildcard && wildcardSpec(string(topic), string(s.topic))) || (s.match != wamp.MatchPrefix && s.match != wamp.MatchWildcard && s.topic == topic)
+
+//@ pred registered(b *broker, s *subscription) = s != nil && s.id in b.subscriptions && b.subscriptions[s.id] == s
+
+//@ func (b *broker) syncPublish
+//@   on broker
+//@   props C01 C20
+//@   requires brokerInv(b) && brokerHist(b) && pub != nil && msg != nil
+//@   requires eventDetails == nil || identityKeysAbsent(eventDetails)
+//@   assume [distinct-channels] chanInj()
+//@   modifies ghost sendcount, all deques
+//@   callcount syncPubEvent arg4
+//@   ensures [once-per-matching-subscription] forall s *subscription :: registered(b, s) ==> calls(syncPubEvent, s) == old(calls(syncPubEvent, s)) + (matches(s, msg.Topic) ? 1 : 0)
+//@   ensures [nothing-else] forall s *subscription :: !registered(b, s) ==> calls(syncPubEvent, s) == old(calls(syncPubEvent, s))
+//@   callsite syncPubEvent : [pass-through] arg1 == pub && arg2 == msg && arg3 == pubID && arg5 == excludePub && arg7 == disclose && arg8 == filter && arg9 == eventDetails
+//@   callsite syncPubEvent : [topic-for-patterns] arg6 <==> (arg4.match == wamp.MatchPrefix || arg4.match == wamp.MatchWildcard)
+//@   callsite syncPubEvent : [only-matching] registered(b, arg4) && matches(arg4, msg.Topic)
+//@   loop range b.pfxTopicSubscription
+//@     invariant [hist] brokerHist(b)
+//@     invariant [exact-done] forall s *subscription :: registered(b, s) && s.match != wamp.MatchPrefix && s.match != wamp.MatchWildcard ==> calls(syncPubEvent, s) == old(calls(syncPubEvent, s)) + (matches(s, msg.Topic) ? 1 : 0)
+//@     invariant [pfx-visited] forall s *subscription :: registered(b, s) && s.match == wamp.MatchPrefix ==> calls(syncPubEvent, s) == old(calls(syncPubEvent, s)) + (visited(s.topic) && matches(s, msg.Topic) ? 1 : 0)
+//@     invariant [wc-pending] forall s *subscription :: registered(b, s) && s.match == wamp.MatchWildcard ==> calls(syncPubEvent, s) == old(calls(syncPubEvent, s))
+//@     invariant [nothing-else] forall s *subscription :: !registered(b, s) ==> calls(syncPubEvent, s) == old(calls(syncPubEvent, s))
+//@   loop range b.wcTopicSubscription
+//@     invariant [hist] brokerHist(b)
+//@     invariant [exact-pfx-done] forall s *subscription :: registered(b, s) && s.match != wamp.MatchWildcard ==> calls(syncPubEvent, s) == old(calls(syncPubEvent, s)) + (matches(s, msg.Topic) ? 1 : 0)
+//@     invariant [wc-visited] forall s *subscription :: registered(b, s) && s.match == wamp.MatchWildcard ==> calls(syncPubEvent, s) == old(calls(syncPubEvent, s)) + (visited(s.topic) && matches(s, msg.Topic) ? 1 : 0)
+//@     invariant [nothing-else] forall s *subscription :: !registered(b, s) ==> calls(syncPubEvent, s) == old(calls(syncPubEvent, s))
+
+// ---------------------------------------------------------------------------
+// Broker: entry points running on the session's goroutine
+
+//@ func pptOptionsToDetails
+//@   props C04 C12
+//@   requires details != nil
+//@   modifies map(details)
+//@   ensures [others-kept] forall k string :: k != "ppt_scheme" && k != "ppt_serializer" && k != "ppt_cipher" && k != "ppt_keyid" ==> (k in details) == old(k in details) && details[k] == old(details[k])
+
+//@ pred validTopic(b *broker, t wamp.URI) = b.strictURI ? inre(string(t), "strict-exact") : inre(string(t), "loose-exact")
+//@ pred wantsAck(msg *wamp.Publish) = is(msg.Options["acknowledge"], bool) && msg.Options["acknowledge"].(bool)
+//@ pred wantsDisclose(msg *wamp.Publish) = is(msg.Options["disclose_me"], bool) && msg.Options["disclose_me"].(bool)
+
+//@ func (b *broker) publish
+//@   dyncalls-pure
+//@   props C01 C12
+//@   requires b != nil && !isnil(b.log) && b.filterFactory != nil && pub != nil && !isnil(pub.Peer) && msg != nil
+//@   sendsite action : [valid-topic-only] ch == b.actionChan ==> validTopic(b, msg.Topic)
+//@   sendsite action : [disclosure-allowed] ch == b.actionChan ==> !(old(wantsDisclose(msg)) && !b.allowDisclose)
+//@   callsite trySend : [replies-to-publisher] arg1 == pub
+//@   callsite trySend : [invalid-uri] !validTopic(b, msg.Topic) ==> old(wantsAck(msg)) && is(arg2, *wamp.Error) && arg2.(*wamp.Error).Error == wamp.ErrInvalidURI && arg2.(*wamp.Error).Request == msg.Request && arg2.(*wamp.Error).Type == wamp.PUBLISH
+//@   callsite trySend : [disclose-refused] is(arg2, *wamp.Error) && validTopic(b, msg.Topic) ==> old(wantsAck(msg)) && old(wantsDisclose(msg)) && !b.allowDisclose && arg2.(*wamp.Error).Error == wamp.ErrOptionDisallowedDiscloseMe && arg2.(*wamp.Error).Request == msg.Request
+//@   callsite trySend : [published-id] is(arg2, *wamp.Published) ==> old(wantsAck(msg)) && arg2.(*wamp.Published).Request == msg.Request && arg2.(*wamp.Published).Publication == pubID
+
+//@ closure (b *broker) publish 1
+//@   on broker
+//@   props C01 C12
+//@   captures pub != nil && msg != nil && details != nil && identityKeysAbsent(details)
+//@   requires brokerInv(b) && brokerHist(b)
+//@   assume [distinct-channels] chanInj()
+//@   callsite syncPublish : [pass-through] arg0 == b && arg1 == pub && arg2 == msg && arg3 == pubID && arg4 == excludePub && arg5 == disclose && arg6 == filter && arg7 == details
+
+//@ func (b *broker) subscribe
+//@   props C01
+//@   requires b != nil && !isnil(b.log) && sub != nil && !isnil(sub.Peer) && msg != nil
+//@   sendsite action : [valid-topic-only] ch == b.actionChan ==> (b.strictURI ? (match == wamp.MatchWildcard ? inre(string(msg.Topic), "strict-wildcard") : (match == wamp.MatchPrefix ? inre(string(msg.Topic), "strict-prefix") : inre(string(msg.Topic), "strict-exact"))) : (match == wamp.MatchWildcard ? inre(string(msg.Topic), "loose-wildcard") : (match == wamp.MatchPrefix ? inre(string(msg.Topic), "loose-prefix") : inre(string(msg.Topic), "loose-exact"))))
+//@   callsite trySend : [invalid-uri] arg1 == sub && is(arg2, *wamp.Error) && arg2.(*wamp.Error).Error == wamp.ErrInvalidURI && arg2.(*wamp.Error).Request == msg.Request && arg2.(*wamp.Error).Type == wamp.SUBSCRIBE
+
+//@ closure (b *broker) subscribe 1
+//@   on broker
+//@   props C01
+//@   captures sub != nil && !isnil(sub.Peer) && msg != nil
+//@   requires brokerInv(b) && idsFresh(b) && brokerIndex(b) && brokerOwn(b)
+//@   callsite syncSubscribe : [pass-through] arg0 == b && arg1 == sub && arg2 == msg && arg3 == match
+
+//@ closure (b *broker) unsubscribe 1
+//@   on broker
+//@   props C01
+//@   captures sub != nil && !isnil(sub.Peer) && msg != nil
+//@   requires brokerInv(b) && brokerIndex(b) && brokerOwn(b)
+//@   callsite syncUnsubscribe : [pass-through] arg0 == b && arg1 == sub && arg2 == msg
+
+//@ func (b *broker) unsubscribe
+//@   props C01
+//@   requires b != nil && sub != nil && !isnil(sub.Peer) && msg != nil
+
+//@ closure (b *broker) removeSession 1
+//@   on broker
+//@   props C01 C05
+//@   captures sess != nil
+//@   requires brokerInv(b) && brokerIndex(b) && brokerOwn(b)
+//@   callsite syncRemoveSession : [pass-through] arg0 == b && arg1 == sess
+
+//@ func (b *broker) removeSession
+//@   props C05
+//@   requires b != nil
+
+//@ func (b *broker) PreInitEventHistoryTopics
+//@   on broker
+//@   nosweep
